@@ -8,6 +8,7 @@ import (
 	"github.com/llir/llvm/ir/constant"
 	"github.com/llir/llvm/ir/metadata"
 	"github.com/llir/llvm/ir/types"
+	"github.com/llir/llvm/ir/value"
 )
 
 // C11 (parser side, L3): the token the printer emits for a name or string is
@@ -78,7 +79,25 @@ func VfC11_ParseLocal() {
 	n := vfLen("n", 1, hC11N())
 	s := hClassed("s", n)
 	tok := enc.LocalName(s)
-	m, err := ParseString("t.ll", "define void @f(i32 "+tok+") {\n\tret void\n}\n")
+	if vfChoice("site", 2) == 1 {
+		// the name of an instruction result, defined and used
+		m, err := ParseString("t.ll", "define i32 @f(i32 %param) {\n\t"+tok+" = add i32 %param, 1\n\tret i32 "+tok+"\n}\n")
+		vfReach("C11.parse.local-result")
+		vfObserveStr("tok", tok)
+		vfAssert("C11.local.result-parse-accepts", err == nil)
+		if err == nil {
+			add, isAdd := m.Funcs[0].Blocks[0].Insts[0].(*ir.InstAdd)
+			ret, isRet := m.Funcs[0].Blocks[0].Term.(*ir.TermRet)
+			vfAssert("C11.local.result-shape", vfAnd(isAdd, isRet))
+			if isAdd && isRet {
+				vfAssert("C11.local.result-kind", vfNot(add.IsUnnamed()))
+				vfAssert("C11.local.result-roundtrip", add.LocalName == s)
+				vfAssert("C11.local.result-use-is-def", ret.X == value.Value(add))
+			}
+		}
+		return
+	}
+	m, err := ParseString("t.ll", "define i32 @f(i32 "+tok+") {\n\tret i32 "+tok+"\n}\n")
 	vfReach("C11.parse.local")
 	vfObserveStr("tok", tok)
 	vfAssert("C11.local.parse-accepts", err == nil)
@@ -87,6 +106,7 @@ func VfC11_ParseLocal() {
 		vfObserveStr("name", p.LocalName)
 		vfAssert("C11.local.parse-kind", vfNot(p.IsUnnamed()))
 		vfAssert("C11.local.parse-roundtrip", p.LocalName == s)
+		vfAssert("C11.local.use-is-def", m.Funcs[0].Blocks[0].Term.(*ir.TermRet).X == value.Value(p))
 	}
 }
 
